@@ -25,6 +25,7 @@ PROP = {
         "request targets use ';params' '?query' '#fragment' in that order with every delimiter character inside a component percent-encoded; '+' is never sent raw; header names are distinct tokens, values non-empty",
         "the client never half-closes its side and reads until the server closes; ECONNRESET is accepted as 'connection closed' (kernel behaviour when the server closes with unread client data queued)",
         "left free: number of loop passes between cause and effect, whether requests behind the closing one reach a handler, whether the connection stays open without a closing request, response header layout",
+        "stop()/cleanup() are called between loop passes, never from inside a callback; use() is repeated after cleanup() only (stop()/start() keeps the registered callbacks); kept NextFuncs of a life that ends are dropped without being called",
         "every handler eventually completes (contexts and kept NextFuncs are released before the server is destroyed); a stage of a handler chain calls next() at most once per request",
         "the incomplete last request declares a valid decimal Content-Length below 2^64-1 (so a correct parser waits for ever and the connection is not dropped); Content-Length values >= 2^64-1, signs and the like only go to the parser-level sub-check",
     ],
@@ -32,6 +33,6 @@ PROP = {
 META = {
     "design_ref": "DESIGN.md section 4, C12",
     "technique": "coverage-guided fuzzing (libFuzzer) and grammar-plus-damage PBT of the request parser through a copy of the server's receive path; grammar-based PBT (rapidcheck) of segmentation independence against the generated request model; model-based PBT of a real http::server::Server over a unix-domain socket with a raw in-thread client driven pass by pass (virtual clock), under ASan/UBSan",
-    "level_text": "(a) arbitrary and damaged byte streams in arbitrary segmentations are fed to RequestParser exactly as Server::Impl::onTcpReceived does (exact-size heap copies per call): no exception, no sanitizer report, consumed <= given, no stage advance without consumption, termination, and for every request reported complete: the bytes consumed for it are its head followed by exactly its body, and the body has exactly the number of bytes a decimal Content-Length declares (heads with extreme Content-Length values relative to their own length are generated on purpose). (b) generated pipelines of 1-6 well-formed requests (7 methods, targets with params/query/fragment and percent-escapes, HTTP/1.0 and 1.1, 0-6 headers with optional whitespace, canonical Content-Length, bodies of arbitrary bytes incl. CRLFCRLF and request-like text) are parsed unsegmented and under a generated segmentation (down to single bytes; cuts inside methods, CRLFs, header names, at the blank line) and both results are compared field by field with the generated model. (c) the same pipelines are sent over a unix-domain socket to a real Server whose handlers complete inside the callback, up to 40 loop passes later or inside the next hand-over, in generated order, through handler chains of 1-4 Server::use() stages that answer, call next() inside the callback, or keep the NextFunc (with or without the context) and call it 1-8 passes later, with response bodies up to 200 KiB and paced client reads; optionally followed by an incomplete request whose valid decimal Content-Length (around 2^31/2^32/2^63, 2^64-k for k around the head length) can never be satisfied and which must never be handed over or answered; the client byte stream must parse into exactly the responses 0..N-1 in request order (id echo, length, body pattern), nothing may follow the response to the first closing request and the client must then see the end of the stream. Exploration only: no counter-example among N generated cases.",
+    "level_text": "(a) arbitrary and damaged byte streams in arbitrary segmentations are fed to RequestParser exactly as Server::Impl::onTcpReceived does (exact-size heap copies per call): no exception, no sanitizer report, consumed <= given, no stage advance without consumption, termination, and for every request reported complete: the bytes consumed for it are its head followed by exactly its body, and the body has exactly the number of bytes a decimal Content-Length declares (heads with extreme Content-Length values relative to their own length are generated on purpose). (b) generated pipelines of 1-6 well-formed requests (7 methods, targets with params/query/fragment and percent-escapes, HTTP/1.0 and 1.1, 0-6 headers with optional whitespace, canonical Content-Length, bodies of arbitrary bytes incl. CRLFCRLF and request-like text) are parsed unsegmented and under a generated segmentation (down to single bytes; cuts inside methods, CRLFs, header names, at the blank line) and both results are compared field by field with the generated model. (c) the same pipelines are sent over a unix-domain socket to a real Server whose handlers complete inside the callback, up to 40 loop passes later or inside the next hand-over, in generated order, through handler chains of 1-4 Server::use() stages that answer, call next() inside the callback, or keep the NextFunc (with or without the context) and call it 1-8 passes later, with response bodies up to 200 KiB and paced client reads; optionally followed by an incomplete request whose valid decimal Content-Length (around 2^31/2^32/2^63, 2^64-k for k around the head length) can never be satisfied and which must never be handed over or answered; a case has 1-3 lives of the one Server object (cleanup() + initialize() + use() + start(), or stop() + start()), each with its own connection and pipeline and the same oracle, an earlier life may be cut short with handlers pending whose contexts are released in a later life (their responses must be dropped, nothing of them may reach the later connection), the client closes before or after the server stops; the client byte stream must parse into exactly the responses 0..N-1 in request order (id echo, length, body pattern), nothing may follow the response to the first closing request and the client must then see the end of the stream. Exploration only: no counter-example among N generated cases.",
     "level_note": "Trusted: the request grammar/model and the tolerant client-side response parser in harness/C12/http.cpp, the kernel's unix-socket semantics (TIOCOUTQ is used to make generated cut points the server's receive boundaries), ASan/UBSan. Not covered: non-canonical header spellings, requests without Content-Length, chunked encoding, client half-close, several simultaneous connections, TCP transport (unix-domain sockets only), write errors.",
 }
